@@ -242,3 +242,33 @@ package smgp30
 //@   ensures [C15 auth] result != nil && result.AuthenticatorClient == md5(cat(account, zeros(7), passwd, dec10(int(result.Timestamp)))) && len(result.AuthenticatorClient) == 16
 //@   ensures [C15 fields] result.ClientID == account
 //@   ensures [C10 header] int(result.Header.CommandID) == 1 && result.Header.SequenceID == seqID
+
+// ---------------------------------------------------------------- delivery receipt text (C18, C03)
+//@ pure func restAfter(s Bytes, n int, klen int) Bytes = drop(s, n + klen)
+//@ pure func fieldAt(s Bytes, n int, klen int) Bytes = sindex(restAfter(s, n, klen), " ") == -1 ? restAfter(s, n, klen) : take(restAfter(s, n, klen), sindex(restAfter(s, n, klen), " "))
+//@ pure func cut(v Bytes, w int) Bytes = w > 0 && len(v) > w ? take(v, w) : v
+// keyPos: position of the primary spelling `sub:`, else of the backup spelling `backup:`, else -1
+//@ pure func keyPos(s Bytes, sub Bytes, backup Bytes) int = sindex(s, cat(sub, ":")) != -1 ? sindex(s, cat(sub, ":")) : (len(backup) == 0 ? -1 : sindex(s, cat(backup, ":")))
+
+//@ func findSubValue
+//@   props C18,C03
+//@   requires len(backup) == 0 || len(backup) == len(sub)
+//@   ensures [C18 absent] keyPos(s, sub, backup) == -1 ==> value == eps
+//@   ensures [C18 field] keyPos(s, sub, backup) != -1 ==> value == cut(fieldAt(s, keyPos(s, sub, backup), len(sub) + 1), maxSize)
+
+//@ func findSMGPIDValue
+//@   props C18,C03
+//@   ensures [C18 absent] sindex(s, "id:") == -1 || len(s) < sindex(s, "id:") + 13 ==> value == eps
+//@   ensures [C18 id] sindex(s, "id:") != -1 && len(s) >= sindex(s, "id:") + 13 ==> value == hexenc(ext(s, sindex(s, "id:") + 3, sindex(s, "id:") + 13))
+
+//@ func ExtractDeliveryReceipt
+//@   props C18,C03
+//@   ensures [C18 fields] err == nil
+//@   ensures [C18 sub] keyPos(s, "sub", "Sub") != -1 ==> d.Sub == cut(fieldAt(s, keyPos(s, "sub", "Sub"), 4), 3)
+//@   ensures [C18 stat] keyPos(s, "stat", "Stat") != -1 ==> d.Stat == cut(fieldAt(s, keyPos(s, "stat", "Stat"), 5), 7)
+//@   ensures [C18 err] keyPos(s, "err", "Err") != -1 ==> d.Err == cut(fieldAt(s, keyPos(s, "err", "Err"), 4), 3)
+//@   ensures [C18 dlvrd] keyPos(s, "dlvrd", "Dlvrd") != -1 ==> d.Dlvrd == cut(fieldAt(s, keyPos(s, "dlvrd", "Dlvrd"), 6), 3)
+//@   ensures [C18 submitdate] keyPos(s, "submit date", "Submit_Date") != -1 ==> d.SubDate == cut(fieldAt(s, keyPos(s, "submit date", "Submit_Date"), 12), 10)
+//@   ensures [C18 donedate] keyPos(s, "done date", "Done_Date") != -1 ==> d.DoneDate == cut(fieldAt(s, keyPos(s, "done date", "Done_Date"), 10), 10)
+//@   ensures [C18 text] keyPos(s, "text", "Text") != -1 ==> d.Text == cut(fieldAt(s, keyPos(s, "text", "Text"), 5), 20)
+//@   ensures [C18 id] sindex(s, "id:") != -1 && len(s) >= sindex(s, "id:") + 13 ==> d.ID == hexenc(ext(s, sindex(s, "id:") + 3, sindex(s, "id:") + 13))
